@@ -11,9 +11,23 @@ mod gen;
 fn main() {
     let mut out = Vec::new();
     gen::run_all(&mut out);
+    print(&out);
+    // the sweep's records are printed one length at a time, so that a panic in zlink at one size
+    // does not take the other records with it
+    for len in 0..=600 {
+        let mut out = Vec::new();
+        let r = std::panic::catch_unwind(std::panic::AssertUnwindSafe(|| prelude::size_sweep(&mut out, len, len)));
+        print(&out);
+        if r.is_err() {
+            eprintln!("size sweep: panic at length {len}");
+        }
+    }
+}
+
+fn print(out: &[prelude::Record]) {
     let stdout = std::io::stdout();
     let mut lock = stdout.lock();
-    for r in &out {
+    for r in out {
         use std::io::Write;
         let _ = writeln!(lock, "{}", serde_json::to_string(r).unwrap());
     }
